@@ -153,8 +153,8 @@ Lemma A_evict_call r p c :
   sat IA IA (st_evict_call e c).
 Proof.
   intros H C P (G1 & G2 & G3) NS NO. unfold st_evict_call. rewrite C, P.
-  assert (OK : forall b, okeff (mkEff EEvict b (stamp_of (Some r) (Some p)) 0)).
-  { intros b. unfold okeff, secured, other_node. cbn.
+  assert (OK : forall b z, okeff (mkEff EEvict b (stamp_of (Some r) (Some p)) z)).
+  { intros b z. unfold okeff, secured, other_node. cbn.
     repeat match goal with |- _ /\ _ => split end; auto.
     destruct NO as [N|[N|N]]; auto. }
   stage_exec; openA; unfold IA, GA in *; cbn;
